@@ -133,6 +133,7 @@ func ruleLZ4Bound(c *Ctx) {
 	for _, fn := range fns {
 		name, pos := funcName(fn), c.P.pos(fn.Pos())
 		n := 0
+		giveUps := 0
 		bad := []string{}
 		sim := c.P.Simulate(fn, SimConfig{}, func(pr *PathResult) {
 			n++
@@ -178,6 +179,7 @@ func ruleLZ4Bound(c *Ctx) {
 				}
 				return false
 			}
+			giveUps++
 			ok := enough(L)
 			for _, l := range pr.Conds {
 				if l.Atom.Op != "lt" {
@@ -198,6 +200,9 @@ func ruleLZ4Bound(c *Ctx) {
 		if sim.Overflow || n == 0 {
 			c.undecided("lz4-bound", name, pos, "could not enumerate paths")
 			continue
+		}
+		if giveUps == 0 && hasLoop(fn) {
+			bad = append(bad, "no feasible path leaves the retry loop while the short-buffer error persists: a malformed block is retried forever (the decoder hangs)")
 		}
 		c.check(len(bad) == 0, "lz4-bound", name, pos, fmt.Sprintf("%d paths: a short-buffer failure is final only with a destination >= 255 x len(input)", n), strings.Join(uniq(bad), " || "), n)
 	}
@@ -421,4 +426,14 @@ func ruleDecodersReadAll(c *Ctx) {
 	if total < 2 {
 		c.undecided("decoder-reads-all", "compress", "-", "gzip/brotli stream decoders not found")
 	}
+}
+
+// hasLoop: the function's control-flow graph has a cycle.
+func hasLoop(fn *ssa.Function) bool {
+	for _, b := range fn.Blocks {
+		if cycleOf(b) != nil {
+			return true
+		}
+	}
+	return false
 }
